@@ -284,9 +284,29 @@ def near_return_programs():
                             yield [(first, list(start))] + [('l', list(v)) for v in perm] + [(closer, [])] + [(l, list(a)) for l, a in tail]
 
 
+def coincidence_programs():
+    """a RELATIVE command whose offset happens to equal the absolute pen position (x,y) -> (2x,2y): anything that
+    compares a relative end point with the pen before adding the pen takes it for 'no movement'"""
+    for pen in ((5.0, 5.0), (2.0, -3.0), (0.25, 7.5)):
+        x, y = pen
+        for first in 'Mm':
+            yield [(first, [x, y]), ('a', [3.0, 3.0, 0.0, 0, 1, x, y])]
+            yield [(first, [x, y]), ('a', [3.0, 2.0, 30.0, 1, 0, x, y]), ('l', [1.0, 1.0])]
+            yield [(first, [x, y]), ('l', [x, y]), ('a', [9.0, 9.0, 0.0, 0, 1, 2 * x, 2 * y])]
+            yield [(first, [x, y]), ('l', [x, y])]
+            yield [(first, [x, y]), ('c', [1.0, 2.0, 3.0, 4.0, x, y]), ('s', [1.0, 1.0, 2 * x, 2 * y])]
+            yield [(first, [x, y]), ('q', [1.0, 2.0, x, y]), ('t', [2 * x, 2 * y])]
+            yield [(first, [x, y]), ('h', [x]), ('v', [y])]
+            yield [(first, [x, y]), ('m', [x, y]), ('l', [2 * x, 2 * y]), ('z', [])]
+
+
 def run_shard(desc, tier, seed):
     acc = core.Acc()
     tp = tier_params(tier, seed)
+    if desc.get('what') == 'near_return':
+        for prog in coincidence_programs():
+            check_program(prog, 0, ['spaced', 'implicit', 'minimal', 'comma'], acc)
+            acc.seen('coincidence')
     if desc.get('what') == 'long_runs':
         for i, prog in enumerate(long_run_programs(tier)):
             if i % desc['of'] == desc['k']:
@@ -319,7 +339,7 @@ def run_shard(desc, tier, seed):
 
 
 def expected_classes(tier):
-    return ['style:%s' % s for s in refsvg.STYLES] + ['kinds:ACLQ', 'kinds:L', 'kinds:', 'long_run', 'near_return']
+    return ['style:%s' % s for s in refsvg.STYLES] + ['kinds:ACLQ', 'kinds:L', 'kinds:', 'long_run', 'near_return', 'coincidence']
 
 
 def space(tier, seed):
